@@ -174,7 +174,7 @@ def firstDiff (hist : List (List Op)) (model go : List String) : String :=
 def judge (op : List String) (go : String) : Verdict :=
   match op with
   | ["cont", _engine, shape, h] =>
-    if go == "computation-limit" then .skip "computation-limit" else
+    if go == "computation-limit" || go == "program-too-large" then .skip go else
     let sh := shape.splitOn ":"
     match initCont sh, (h.splitOn "|").mapM (parseTx sh) with
     | some c0, some txs =>
